@@ -211,6 +211,12 @@ impl WireEncode for StandardPath {
             return Err("curr_hop_field exceeds maximum encodeable value".into());
         }
 
+        // CurrHF has 6 bits: a hop field beyond index 63 can never become the current one (e.g.
+        // after reversing the path), such a path cannot be traversed or reversed.
+        if self.hop_field_count() > StdPathMetaLayout::MAX_TOTAL_HOPS + 1 {
+            return Err("total number of hop fields exceeds maximum encodeable value".into());
+        }
+
         if self.current_info_field as usize >= self.info_field_count() {
             return Err("current_info_field exceeds total number of info fields".into());
         }
